@@ -16,47 +16,73 @@ func init() {
 
 // c07Desc renders the provenance of a leaf value as an access path over parameters, fields and
 // static callees ("param#0.config.SecurityTag", "call:GetPeerAddr(param#0.stream)", "const:\"\"").
-func c07Desc(v ssa.Value, d int) string {
-	if d > 8 {
+// Leaves are values of a view: what a helper receives is described by what its call site passes.
+func (vw *c06View) Desc(o c06FV, d int) string {
+	if d > 8 || o.V == nil {
 		return "?"
 	}
-	v = stripConv(v)
+	v := stripConv(o.V)
 	switch x := v.(type) {
 	case *ssa.Parameter:
-		for i, p := range x.Parent().Params {
-			if p == x {
+		if i := c06ParamIndex(o.F.Fn, x); i >= 0 {
+			if o.F == vw.Root {
 				return fmt.Sprintf("param#%d", i)
 			}
+			return fmt.Sprintf("param#%d@%s", i, fnName(o.F.Fn))
 		}
 	case *ssa.Const:
 		return "const:" + x.String()
+	case *ssa.Global:
+		return "global:" + x.Name()
 	case *ssa.UnOp:
 		if x.Op == token.MUL {
 			if fa, ok := x.X.(*ssa.FieldAddr); ok {
-				return c07Desc(fa.X, d+1) + "." + fieldOfAddr(fa).Name()
+				return vw.prov1(c06FV{fa.X, o.F}, d+1) + "." + fieldOfAddr(fa).Name()
+			}
+			if g, ok := x.X.(*ssa.Global); ok {
+				return "global:" + g.Name()
 			}
 		}
 	case *ssa.Field:
-		return c07Desc(x.X, d+1) + "." + x.X.Type().Underlying().(*types.Struct).Field(x.Field).Name()
+		return vw.prov1(c06FV{x.X, o.F}, d+1) + "." + x.X.Type().Underlying().(*types.Struct).Field(x.Field).Name()
 	case *ssa.Call:
-		if o := calleeObj(x); o != nil {
+		if ob := calleeObj(x); ob != nil {
 			var as []string
 			for _, a := range callArgs(x) {
-				as = append(as, c07Desc(a, d+1))
+				as = append(as, vw.prov1(c06FV{a, o.F}, d+1))
 			}
-			return "call:" + o.Name() + "(" + strings.Join(as, ",") + ")"
+			return "call:" + ob.Name() + "(" + strings.Join(as, ",") + ")"
 		}
 	case *ssa.Extract:
-		return fmt.Sprintf("%s#%d", c07Desc(x.Tuple, d+1), x.Index)
+		return fmt.Sprintf("%s#%d", vw.Desc(c06FV{x.Tuple, o.F}, d+1), x.Index)
+	case *ssa.BinOp:
+		return "(" + vw.prov1(c06FV{x.X, o.F}, d+1) + x.Op.String() + vw.prov1(c06FV{x.Y, o.F}, d+1) + ")"
 	}
 	return "?" + v.Type().String()
 }
 
-// c07Prov: the sorted set of provenance descriptions of v's leaf origins.
-func c07Prov(fn *ssa.Function, v ssa.Value) string {
+// prov1 describes a sub-value: the description of its single leaf origin, or the set of them.
+func (vw *c06View) prov1(v c06FV, d int) string {
 	set := map[string]bool{}
-	for _, o := range origins(fn, v) {
-		set[c07Desc(o, 0)] = true
+	for _, o := range vw.Origins(v) {
+		set[vw.Desc(o, d)] = true
+	}
+	var l []string
+	for s := range set {
+		l = append(l, s)
+	}
+	sort.Strings(l)
+	if len(l) == 1 {
+		return l[0]
+	}
+	return "{" + strings.Join(l, " | ") + "}"
+}
+
+// Prov: the sorted set of provenance descriptions of v's leaf origins.
+func (vw *c06View) Prov(v c06FV) string {
+	set := map[string]bool{}
+	for _, o := range vw.Origins(v) {
+		set[vw.Desc(o, 0)] = true
 	}
 	var l []string
 	for s := range set {
@@ -66,10 +92,21 @@ func c07Prov(fn *ssa.Function, v ssa.Value) string {
 	return "{" + strings.Join(l, " | ") + "}"
 }
 
+// c07OptFns resolves functions that a view should not look into when they exist (no anchor obligation).
+func (c *Ctx) c07OptFns(rel string, names ...string) []*ssa.Function {
+	var out []*ssa.Function
+	for _, n := range names {
+		if f := c.LookupFn(rel, n); f != nil {
+			out = append(out, f)
+		}
+	}
+	return out
+}
+
 // C07-R1: the key a client session is filed under is the key it is looked up with.
 func c07r1(c *Ctx) {
 	const rule = "C07-R1"
-	c.Doc(rule, "the tag and address arguments of cache.LookupByCommand in ClientHandshake and of NewSessionEntry / cache.MapCommand in storeClientSession have the same provenance: tag = the SecurityTag field of the authenticator's own config, address = config.PeerName else stream.GetPeerAddr(); a constant on one side and a field on the other is a report")
+	c.Doc(rule, "the tag and address arguments of cache.LookupByCommand in ClientHandshake and of NewSessionEntry / cache.MapCommand in storeClientSession (or in helpers of these) have the same provenance: tag = the SecurityTag field of the authenticator's own config, address = config.PeerName else stream.GetPeerAddr(); a constant on one side and a field on the other is a report")
 	ch := c.needFn(rule, "security", "(*Authenticator).ClientHandshake")
 	sc := c.needFn(rule, "security", "(*Authenticator).storeClientSession")
 	lbc := c.needFn(rule, "security", "(*SessionCache).LookupByCommand")
@@ -80,23 +117,27 @@ func c07r1(c *Ctx) {
 	if ch == nil || sc == nil || lbc == nil || mc == nil || nse == nil || fTag == nil || fCfg == nil {
 		return
 	}
-	ownTag := func(fn *ssa.Function, v ssa.Value) bool {
-		return c06AllOrigins(fn, v, func(o ssa.Value) bool {
-			base, ok := c06FieldLoadOf(o, fTag)
+	stop := append([]*ssa.Function{ch, sc, lbc, mc, nse}, c.c07OptFns("security", "(*Authenticator).resumeSession", "(*Authenticator).performFullAuthentication")...)
+	vch, vsc := c.c06NewView(ch, stop...), c.c06NewView(sc, stop...)
+	ownTag := func(vw *c06View, v c06FV) bool {
+		return vw.AllOrigins(v, func(o c06FV) bool {
+			base, ok := c06XFieldLoad(o, fTag)
 			if !ok {
 				return false
 			}
-			recv, ok := c06FieldLoadOf(base, fCfg)
-			return ok && len(fn.Params) > 0 && recv == fn.Params[0]
+			return vw.AllOrigins(base, func(b c06FV) bool {
+				recv, ok := c06XFieldLoad(b, fCfg)
+				return ok && vw.IsRootParam(recv, 0)
+			})
 		})
 	}
 	var tagProv, addrProv string
 	nl := 0
-	for _, cs := range callsIn(ch, lbc.Object()) {
+	for _, cs := range vch.Calls(lbc.Object()) {
 		nl++
-		args := callArgs(cs) // cache, tag, addr, command
-		tagProv, addrProv = c07Prov(ch, args[1]), c07Prov(ch, args[2])
-		c.Check(ownTag(ch, args[1]), rule, fnName(ch)+"#LookupByCommand:tag", "the lookup tag is the authenticator's own SecurityTag "+tagProv,
+		// cache, tag, addr, command
+		tagProv, addrProv = vch.Prov(cs.Arg(1)), vch.Prov(cs.Arg(2))
+		c.Check(ownTag(vch, cs.Arg(1)), rule, fnName(ch)+"#LookupByCommand:tag", "the lookup tag is the authenticator's own SecurityTag "+tagProv,
 			"the lookup tag is not the authenticator's own config.SecurityTag: "+tagProv, cs.Pos())
 	}
 	c.MinCount(rule, "LookupByCommand calls in ClientHandshake", nl, 1)
@@ -106,51 +147,79 @@ func c07r1(c *Ctx) {
 		}
 		return
 	}
-	nf := 0
-	chk := func(cs ssa.CallInstruction, what string, tag, addr ssa.Value) {
-		nf++
-		tp, ap := c07Prov(sc, tag), c07Prov(sc, addr)
-		c.Check(ownTag(sc, tag) && tp == tagProv, rule, fnName(sc)+"#"+what+":tag", "filed under the tag it is looked up with "+tp,
+	nf := map[string]int{}
+	chk := func(cs c06Site, what string, tag, addr c06FV) {
+		nf[what]++
+		tp, ap := vsc.Prov(tag), vsc.Prov(addr)
+		c.Check(ownTag(vsc, tag) && tp == tagProv, rule, fnName(sc)+"#"+what+":tag", "filed under the tag it is looked up with "+tp,
 			"the session is filed under tag "+tp+" but looked up under "+tagProv+": a session established under one tag is ridden by handshakes of another (or none) and never by its own", cs.Pos())
 		c.Check(ap == addrProv, rule, fnName(sc)+"#"+what+":addr", "filed under the address it is looked up with "+ap,
 			"the session is filed under address "+ap+" but looked up under "+addrProv, cs.Pos())
 	}
-	for _, cs := range callsIn(sc, nse.Object()) {
-		a := callArgs(cs) // id, addr, keyInfo, policy, expiration, lease, tag
-		if len(a) != 7 {
+	for _, cs := range vsc.Calls(nse.Object()) {
+		// id, addr, keyInfo, policy, expiration, lease, tag
+		if cs.NArgs() != 7 {
 			c.Undecided(rule, fnName(sc)+"#NewSessionEntry", "unexpected NewSessionEntry signature", cs.Pos())
 			continue
 		}
-		chk(cs, "NewSessionEntry", a[6], a[1])
+		chk(cs, "NewSessionEntry", cs.Arg(6), cs.Arg(1))
 	}
-	for _, cs := range callsIn(sc, mc.Object()) {
-		a := callArgs(cs) // cache, tag, addr, command, sessionID
-		if len(a) != 5 {
+	for _, cs := range vsc.Calls(mc.Object()) {
+		// cache, tag, addr, command, sessionID
+		if cs.NArgs() != 5 {
 			c.Undecided(rule, fnName(sc)+"#MapCommand", "unexpected MapCommand signature", cs.Pos())
 			continue
 		}
-		chk(cs, "MapCommand", a[1], a[2])
+		chk(cs, "MapCommand", cs.Arg(1), cs.Arg(2))
 	}
-	c.MinCount(rule, "filing sites in storeClientSession", nf, 2)
+	c.MinCount(rule, "NewSessionEntry calls in storeClientSession", nf["NewSessionEntry"], 1)
+	c.MinCount(rule, "MapCommand calls in storeClientSession", nf["MapCommand"], 1)
+}
+
+// c07AllOriginsUp: every leaf origin of v (a value of fn) satisfies pred; a parameter of fn, when fn is an
+// unexported function never used as a value, is followed to the arguments of all of fn's call sites.
+func (c *Ctx) c07AllOriginsUp(fn *ssa.Function, v ssa.Value, pred func(vw *c06View, o c06FV) bool, depth int) bool {
+	vw := c.c06NewView(fn)
+	return vw.AllOrigins(vw.fv(v), func(o c06FV) bool {
+		if pred(vw, o) {
+			return true
+		}
+		par, ok := o.V.(*ssa.Parameter)
+		if !ok || o.F != vw.Root || depth <= 0 || fn.Parent() != nil || fn.Object() == nil || fn.Object().Exported() || c.c06UsedAsValue(fn) {
+			return false
+		}
+		i := c06ParamIndex(fn, par)
+		sites := c.callSites(fn.Object())
+		if i < 0 || len(sites) == 0 {
+			return false
+		}
+		for _, s := range sites {
+			args := s.Call.Common().Args
+			if i >= len(args) || !c.c07AllOriginsUp(s.Fn, args[i], pred, depth-1) {
+				return false
+			}
+		}
+		return true
+	})
 }
 
 // C07-R2: the commands mapped are the ones the server declared.
 func c07r2(c *Ctx) {
 	const rule = "C07-R2"
-	c.Doc(rule, "the command strings storeClientSession maps are derived from negotiation.ValidCommands, and every assignment of SecurityNegotiation.ValidCommands in the module takes its value from the ValidCommands attribute of a received ad or of a cached policy")
+	c.Doc(rule, "the command strings storeClientSession (or a helper of it) maps are derived from negotiation.ValidCommands, and every assignment of SecurityNegotiation.ValidCommands in the module takes its value from the ValidCommands attribute of a received ad or of a cached policy")
 	sc := c.needFn(rule, "security", "(*Authenticator).storeClientSession")
 	mc := c.needFn(rule, "security", "(*SessionCache).MapCommand")
 	fVC := c.needField(rule, "security", "SecurityNegotiation", "ValidCommands")
 	if sc == nil || mc == nil || fVC == nil {
 		return
 	}
+	vsc := c.c06NewView(sc, mc)
 	n := 0
-	for _, cs := range callsIn(sc, mc.Object()) {
+	for _, cs := range vsc.Calls(mc.Object()) {
 		n++
-		a := callArgs(cs)
-		ok := len(a) == 5 && mustDepend(sc, a[3], func(v ssa.Value) bool {
-			base, isF := c06FieldLoadOf(v, fVC)
-			return isF && len(sc.Params) > 1 && base == sc.Params[1]
+		ok := cs.NArgs() == 5 && vsc.MustDepend(cs.Arg(3), func(v c06FV) bool {
+			base, isF := c06XFieldLoad(v, fVC)
+			return isF && vsc.IsRootParam(base, 1)
 		})
 		c.Check(ok, rule, fnName(sc)+"#MapCommand:command", "mapped commands come from negotiation.ValidCommands", "a mapped command is not derived from negotiation.ValidCommands (the server's declaration)", cs.Pos())
 	}
@@ -167,15 +236,15 @@ func c07r2(c *Ctx) {
 				continue
 			}
 			nw++
-			good := c06AllOrigins(acc.Fn, st.Val, func(o ssa.Value) bool {
-				_, _, name, idx, ok := c06AttrLookup(o)
+			good := c.c07AllOriginsUp(acc.Fn, st.Val, func(vw *c06View, o c06FV) bool {
+				_, _, name, idx, ok := vw.AttrLookup(o)
 				return ok && idx == 0 && name == "ValidCommands"
-			})
+			}, 2)
 			c.Check(good, rule, fnName(acc.Fn)+"#store:ValidCommands", "ValidCommands is taken from the ValidCommands attribute of an ad",
 				"ValidCommands is assigned from something other than an ad's ValidCommands attribute", st.Pos())
 		}
 	}
-	c.MinCount(rule, "assignments of SecurityNegotiation.ValidCommands", nw, 2)
+	c.MinCount(rule, "assignments of SecurityNegotiation.ValidCommands", nw, 1)
 }
 
 // c07VarArgs returns the values boxed into the variadic slice argument v ([]any built by the compiler).
@@ -215,18 +284,20 @@ func c07VarArgs(fn *ssa.Function, v ssa.Value) []ssa.Value {
 	return out
 }
 
-// c07KeyShape abstracts how f builds its commandMap key: one line per fmt.Sprintf feeding the key.
+// c07KeyShape abstracts how f builds its commandMap key: one line per fmt.Sprintf feeding the key (the
+// Sprintf may be written in f or in a helper f calls; arguments and tag tests are described in terms of f's parameters).
 func (c *Ctx) c07KeyShape(rule string, f *ssa.Function, fCmd *types.Var) ([]string, bool) {
-	var keyVals []ssa.Value
-	allInstrs(f, func(_ *ssa.BasicBlock, _ int, in ssa.Instruction) {
+	vw := c.c06NewView(f)
+	var keyVals []c06FV
+	vw.EachInstr(func(fr *c06Frame, in ssa.Instruction) {
 		switch x := in.(type) {
 		case *ssa.Lookup:
 			if readsField(x.X, fCmd) {
-				keyVals = append(keyVals, x.Index)
+				keyVals = append(keyVals, c06FV{x.Index, fr})
 			}
 		case *ssa.MapUpdate:
 			if readsField(x.Map, fCmd) {
-				keyVals = append(keyVals, x.Key)
+				keyVals = append(keyVals, c06FV{x.Key, fr})
 			}
 		}
 	})
@@ -237,33 +308,62 @@ func (c *Ctx) c07KeyShape(rule string, f *ssa.Function, fCmd *types.Var) ([]stri
 	if len(f.Params) < 2 {
 		return nil, false
 	}
-	tagCmps := c06StringCompares(f, f.Params[1])
+	// tag tests: comparisons of f's tag parameter with ""
+	tagTest := func(nonEmpty bool) *c06Fact {
+		return &c06Fact{Cond: func(fr *c06Frame, at Atom) (bool, bool) {
+			if at.Op != token.EQL && at.Op != token.NEQ || at.X == nil || at.Y == nil {
+				return false, false
+			}
+			x, y := c06FV{at.X, fr}, c06FV{at.Y, fr}
+			var other c06FV
+			if s, ok := vw.ConstString(y); ok && s == "" {
+				other = x
+			} else if s, ok := vw.ConstString(x); ok && s == "" {
+				other = y
+			} else {
+				return false, false
+			}
+			if !vw.IsRootParam(other, 1) {
+				return false, false
+			}
+			emptyOnTrue := at.Op == token.EQL
+			if nonEmpty {
+				return !emptyOnTrue, emptyOnTrue
+			}
+			return emptyOnTrue, !emptyOnTrue
+		}}
+	}
+	nonEmpty, empty := tagTest(true), tagTest(false)
 	var shape []string
-	for _, o := range origins(f, keyVals[0]) {
-		cl, ok := o.(*ssa.Call)
-		co := calleeObj(cl)
-		if !ok || co == nil || co.Pkg() == nil || co.Pkg().Path() != "fmt" || co.Name() != "Sprintf" {
-			c.Undecided(rule, fnName(f)+"#commandMap-key", "the key is not built by fmt.Sprintf: "+c07Desc(o, 0), f.Pos())
+	for _, o := range vw.Origins(keyVals[0]) {
+		in, isInstr := o.V.(ssa.Instruction)
+		if !isInstr {
+			c.Undecided(rule, fnName(f)+"#commandMap-key", "the key is not computed from the parameters: "+vw.Desc(o, 0), f.Pos())
 			return nil, false
 		}
-		format, _ := constString(cl.Call.Args[0])
+		when := "always"
+		if ok, _ := vw.MustPassTo(o.F, in, nonEmpty); ok {
+			when = `param#1!=""`
+		} else if ok, _ := vw.MustPassTo(o.F, in, empty); ok {
+			when = `param#1==""`
+		}
+		cl, ok := o.V.(*ssa.Call)
+		var co *types.Func
+		if ok {
+			co = calleeObj(cl)
+		}
+		if !ok || co == nil || co.Pkg() == nil || co.Pkg().Path() != "fmt" || co.Name() != "Sprintf" || len(cl.Call.Args) != 2 {
+			// some other construction (string concatenation, a builder): its provenance expression is the shape
+			shape = append(shape, fmt.Sprintf("when %s: Sprintf(%s)", when, vw.Desc(o, 0)))
+			continue
+		}
+		format, _ := vw.ConstString(c06FV{cl.Call.Args[0], o.F})
 		var as []string
-		for _, a := range c07VarArgs(f, cl.Call.Args[1]) {
+		for _, a := range c07VarArgs(o.F.Fn, cl.Call.Args[1]) {
 			if a == nil {
 				as = append(as, "?")
 			} else {
-				as = append(as, c07Desc(a, 0))
-			}
-		}
-		when := "always"
-		for _, cm := range tagCmps {
-			if cm.Const != "" {
-				continue
-			}
-			if instrDominatedByEdge(f, cm.NeqEdge, cl) {
-				when = `param#1!=""`
-			} else if instrDominatedByEdge(f, cm.EqEdge, cl) {
-				when = `param#1==""`
+				as = append(as, vw.prov1(c06FV{a, o.F}, 0))
 			}
 		}
 		shape = append(shape, fmt.Sprintf("when %s: Sprintf(%q, %s)", when, format, strings.Join(as, ", ")))
@@ -275,7 +375,7 @@ func (c *Ctx) c07KeyShape(rule string, f *ssa.Function, fCmd *types.Var) ([]stri
 // C07-R3: lookup and mapping build the same key.
 func c07r3(c *Ctx) {
 	const rule = "C07-R3"
-	c.Doc(rule, "LookupByCommand and MapCommand build the commandMap key with the same fmt.Sprintf formats over the same parameters (tag, addr, command) under the same tag-empty/non-empty branches")
+	c.Doc(rule, "LookupByCommand and MapCommand build the commandMap key (directly or through a shared helper) with the same construction (fmt.Sprintf formats, or the same concatenation) over the same parameters (tag, addr, command) under the same tag-empty/non-empty branches")
 	lbc := c.needFn(rule, "security", "(*SessionCache).LookupByCommand")
 	mc := c.needFn(rule, "security", "(*SessionCache).MapCommand")
 	fCmd := c.needField(rule, "security", "SessionCache", "commandMap")
@@ -290,7 +390,7 @@ func c07r3(c *Ctx) {
 	j1, j2 := strings.Join(s1, " ; "), strings.Join(s2, " ; ")
 	c.Check(j1 == j2, rule, "commandMap-key:LookupByCommand=MapCommand", "both build the key as "+j1,
 		"LookupByCommand builds the key as ["+j1+"] but MapCommand as ["+j2+"]: mapped commands are never found (or found under another tag/address)", mc.Pos())
-	c.MinCount(rule, "key formats", len(s1), 2)
+	c.MinCount(rule, "key formats", len(s1), 1)
 	for _, sh := range s1 {
 		for _, p := range []string{"param#2", "param#3"} {
 			c.Check(strings.Contains(sh, p), rule, "commandMap-key:uses-"+p+"/"+strings.SplitN(sh, ":", 2)[0], "the key includes "+p, "a key format omits "+p+" (address/command): sessions of different servers or commands collide", lbc.Pos())
@@ -298,17 +398,45 @@ func c07r3(c *Ctx) {
 	}
 	tagged := false
 	for _, sh := range s1 {
-		if strings.Contains(sh, "param#1,") || strings.Contains(sh, "param#1)") {
-			tagged = true
+		// the tag as an argument of the format (not only in the "when" clause): param#1 followed by a non-digit
+		if args := strings.SplitN(sh, ": Sprintf(", 2); len(args) == 2 {
+			for i := strings.Index(args[1], "param#1"); i >= 0; {
+				rest := args[1][i+len("param#1"):]
+				if rest == "" || rest[0] < '0' || rest[0] > '9' {
+					tagged = true
+				}
+				j := strings.Index(rest, "param#1")
+				if j < 0 {
+					break
+				}
+				i += len("param#1") + j
+			}
 		}
 	}
 	c.Check(tagged, rule, "commandMap-key:uses-tag", "a key format includes the tag", "no key format includes the tag: sessions of different tags collide", lbc.Pos())
 }
 
+// c07MayDo: the instructions of the root function that are, or lead (through expanded calls) to, an instruction
+// satisfying hit somewhere in the view.
+func c07MayDo(vw *c06View, hit func(fr *c06Frame, in ssa.Instruction) bool) []ssa.Instruction {
+	seen := map[ssa.Instruction]bool{}
+	var out []ssa.Instruction
+	vw.EachInstr(func(fr *c06Frame, in ssa.Instruction) {
+		if !hit(fr, in) {
+			return
+		}
+		if top := c06Lift(fr, in, vw.Root); top != nil && !seen[top] {
+			seen[top] = true
+			out = append(out, top)
+		}
+	})
+	return out
+}
+
 // C07-R4: a failed resumption drops the cached session.
 func c07r4(c *Ctx) {
 	const rule = "C07-R4"
-	c.Doc(rule, "resumeSession: every error return invalidates the cached session (cache.Invalidate(entry.ID()) on the way, directly or inside the fail closure it returns through) and yields a *SessionResumptionError so the caller retries with a full handshake; frozen exceptions: exits taken after the server answered with something other than the 'session gone' code, and the local key-install failure")
+	c.Doc(rule, "resumeSession: every error return invalidates the cached session (cache.Invalidate(entry.ID()) on the way, directly or inside the closure / helper it returns through) and yields a *SessionResumptionError so the caller retries with a full handshake; frozen exceptions: exits taken after the server answered with something other than the 'session gone' code, and the local key-install failure")
 	a := c06Resolve(c, rule)
 	if a == nil {
 		return
@@ -319,214 +447,134 @@ func c07r4(c *Ctx) {
 	if idFn == nil || sre == nil {
 		return
 	}
-	// invalidating calls: Invalidate(cache param, ID(entry param)) in R or in a closure of R over the same cells
-	isInvalidate := func(fn *ssa.Function, in ssa.Instruction) bool {
+	fID := c.Field("security", "SessionEntry", "id")
+	vw := c.c06NewView(R, append(a.stopFns(), idFn)...)
+	// invalidating calls: Invalidate(cache param, ID(entry param)) in R, in a closure of R or in a helper that is handed both
+	inv := &c06Fact{Name: "cache.Invalidate(entry.ID())", Instr: func(fr *c06Frame, in ssa.Instruction) bool {
 		cl, ok := isCallTo(in, a.invalidate.Object())
 		if !ok {
 			return false
 		}
 		args := callArgs(cl)
-		if len(args) != 2 {
+		if len(args) != 2 || !vw.IsRootParam(c06FV{args[0], fr}, 3) {
 			return false
 		}
-		idc := c06CallOf(args[1], idFn.Object())
-		if idc == nil {
-			return false
-		}
-		return c07IsParamCell(fn, R, callArgs(idc)[0], 2) && c07IsParamCell(fn, R, args[0], 3)
-	}
-	invalidates := func(fn *ssa.Function) []ssa.Instruction {
-		var out []ssa.Instruction
-		allInstrs(fn, func(_ *ssa.BasicBlock, _ int, in ssa.Instruction) {
-			if isInvalidate(fn, in) {
-				out = append(out, in)
+		return vw.AllOrigins(c06FV{args[1], fr}, func(o c06FV) bool {
+			if s, ok := c06SiteOf(o, idFn.Object()); ok {
+				return vw.IsRootParam(s.Arg(0), 2)
 			}
+			if fID != nil {
+				if base, ok := c06XFieldLoad(o, fID); ok {
+					return vw.IsRootParam(base, 2)
+				}
+			}
+			return false
 		})
-		return out
-	}
-	// frozen exception edges
+	}}
+	// frozen exceptions
 	type exc struct {
-		edges  []Edge
+		fact   *c06Fact
 		reason string
 	}
-	var excs []exc
-	gone, cmps := a.clientCodes(R)
-	var answered []Edge
-	for _, cm := range cmps {
-		if gone[cm.Const] {
-			answered = append(answered, cm.NeqEdge)
+	gone, _ := a.clientCodes(vw)
+	absent := &c06Fact{Cond: func(fr *c06Frame, at Atom) (bool, bool) {
+		if at.Op != token.ILLEGAL || at.X == nil {
+			return false, false
 		}
-	}
-	// an absent ReturnCode: the "present" result of the lookup is false
-	allInstrs(R, func(_ *ssa.BasicBlock, _ int, in ssa.Instruction) {
-		if ex, ok := in.(*ssa.Extract); ok && ex.Index == 1 {
-			if _, _, name, _, ok := c06AttrLookup(ex); ok && name == "ReturnCode" {
-				_, f := boolEdges(R, ex)
-				answered = append(answered, f...)
-			}
-		}
-	})
-	excs = append(excs, exc{answered, "the server answered, and not with the 'session gone' code: it has not said it forgot the session and the exchange completed (property: drop only when 'the server no longer knows the session or the exchange breaks')"})
-	var installFail []Edge
-	for _, cs := range callsIn(R, a.S.Object(), a.setKey.Object()) {
-		_, f, _ := callErrEdges(R, cs.Value())
-		installFail = append(installFail, f...)
-	}
-	excs = append(excs, exc{installFail, "local key installation failed after the exchange completed: neither 'the server no longer knows the session' nor 'the exchange breaks'"})
-	// anything that fails after the server's success code was seen is a local refusal
+		ok := vw.AllOrigins(c06FV{at.X, fr}, func(o c06FV) bool {
+			_, _, name, idx, ok := vw.AttrLookup(o)
+			return ok && name == "ReturnCode" && idx == 1
+		})
+		return false, ok
+	}}
 	okCodes := map[string]bool{}
-	for _, r := range a.replies(a.H) {
+	for _, r := range a.replies(c.c06View(a, a.H)) {
 		if r.Code != "" && !gone[r.Code] {
 			okCodes[r.Code] = true
 		}
 	}
-	var accepted []Edge
-	for _, cm := range cmps {
-		if okCodes[cm.Const] {
-			accepted = append(accepted, cm.EqEdge)
-		}
+	excs := []exc{
+		{c06AnyOf("answered", a.codeFact(vw, gone, false), absent), "the server answered, and not with the 'session gone' code: it has not said it forgot the session and the exchange completed (property: drop only when 'the server no longer knows the session or the exchange breaks')"},
+		{&c06Fact{CallFail: func(fr *c06Frame, cl ssa.CallInstruction) bool {
+			o := calleeObj(cl)
+			return o != nil && (types.Object(o) == a.S.Object() || types.Object(o) == a.setKey.Object())
+		}}, "local key installation failed after the exchange completed: neither 'the server no longer knows the session' nor 'the exchange breaks'"},
+		{a.codeFact(vw, okCodes, true), "the server accepted the resumption (it knows the session and the exchange completed); what fails afterwards is a local decision, not 'the server no longer knows the session or the exchange breaks'"},
 	}
-	excs = append(excs, exc{accepted, "the server accepted the resumption (it knows the session and the exchange completed); what fails afterwards is a local decision, not 'the server no longer knows the session or the exchange breaks'"})
 	// exits taken before anything was sent are not failures of a resumption attempt
-	var ioCalls []ssa.Instruction
-	allInstrs(R, func(_ *ssa.BasicBlock, _ int, in ssa.Instruction) {
-		if cl, ok := in.(ssa.CallInstruction); ok {
-			if o := calleeObj(cl); o != nil && o.Pkg() != nil && o.Pkg() == a.putAd.Object().Pkg() {
-				if sig, ok := o.Type().(*types.Signature); ok && sig.Recv() != nil {
-					ioCalls = append(ioCalls, in)
-				}
-			}
+	nIO := 0
+	ioInstrs := c07MayDo(vw, func(fr *c06Frame, in ssa.Instruction) bool {
+		cl, ok := in.(ssa.CallInstruction)
+		if !ok {
+			return false
 		}
+		o := calleeObj(cl)
+		if o == nil || o.Pkg() == nil || o.Pkg() != a.putAd.Object().Pkg() {
+			return false
+		}
+		if sig, ok := o.Type().(*types.Signature); ok && sig.Recv() != nil {
+			nIO++
+			return true
+		}
+		return false
 	})
-	c.MinCount(rule, "message I/O calls in resumeSession", len(ioCalls), 4)
+	c.MinCount(rule, "message I/O calls in resumeSession", nIO, 1)
 
 	isSucc := map[*ssa.Return]bool{}
 	for _, t := range c.c06SuccessTargets(R) {
 		isSucc[t.Ret] = true
 	}
-	rInv := invalidates(R)
-	nClosure, nDirect, nExc := 0, 0, 0
-	seen := map[*ssa.Return]bool{}
+	nInv, nExc := 0, 0
+	byRet := map[*ssa.Return][]RetPoint{}
+	var order []*ssa.Return
 	for _, r := range c.returnsOf(R) {
-		if isSucc[r.Ret] || seen[r.Ret] {
+		if isSucc[r.Ret] {
 			continue
 		}
-		seen[r.Ret] = true
-		construct := fmt.Sprintf("%s#return%d:invalidates", fnName(R), retOrdinal(R, r.Ret))
-		ev := c06ErrOperand(R, r.Ret)
+		if _, ok := byRet[r.Ret]; !ok {
+			order = append(order, r.Ret)
+		}
+		byRet[r.Ret] = append(byRet[r.Ret], r)
+	}
+	for _, ret := range order {
+		rps := byRet[ret]
+		construct := fmt.Sprintf("%s#return%d:invalidates", fnName(R), retOrdinal(R, ret))
 		afterIO := false
-		for _, io := range ioCalls {
-			if findPath(after(io), r.Target(), nil) != nil {
-				afterIO = true
+		for _, io := range ioInstrs {
+			for _, r := range rps {
+				if findPath(after(io), r.Target(), nil) != nil {
+					afterIO = true
+				}
 			}
 		}
 		if !afterIO {
-			c.Ok(rule, construct, "excepted: taken before anything was sent on the connection: no resumption was attempted", r.Ret.Pos())
+			c.Ok(rule, construct, "excepted: taken before anything was sent on the connection: no resumption was attempted", ret.Pos())
 			continue
 		}
-		if g := c.c06ErrFromNeverNil(R, r); g != nil && g.Parent() == R {
-			// "return fail(...)": the closure must invalidate on every path and build a SessionResumptionError
-			nClosure++
-			gInv := invalidates(g)
-			var wit []*ssa.BasicBlock
-			for _, gr := range c.returnsOf(g) {
-				if p := findPath(entryPoint(g), gr.Target(), newCuts().AddInstrs(gInv...)); p != nil {
-					wit = p
-				}
-			}
-			c.Check(wit == nil && len(gInv) > 0, rule, construct, "returns through "+fnName(g)+", which invalidates the cached session",
-				"returns through "+fnName(g)+", which does not call cache.Invalidate(entry.ID()) on every path: the stale session stays cached and every reconnect re-attempts the doomed resumption", r.Ret.Pos(), c.describePath(wit)...)
-			c.Check(c07ReturnsSRE(g, sre), rule, construct+"/retryable", "the error is a *SessionResumptionError", "the error built by "+fnName(g)+" is not a *SessionResumptionError: the client does not retry with a full handshake", r.Ret.Pos())
-			continue
-		}
-		p := findPath(entryPoint(R), r.Target(), newCuts().AddInstrs(rInv...))
+		p := vw.PathToReturns(vw.Root, rps, inv, 2)
 		if p == nil {
-			nDirect++
-			c.Ok(rule, construct, "every path to this error return invalidates the cached session", r.Ret.Pos())
-			isSRE := ev != nil && c06AllOrigins(R, ev, func(o ssa.Value) bool { return c07IsSREValue(o, sre) })
-			c.Check(isSRE, rule, construct+"/retryable", "the error is a *SessionResumptionError", "the error is not a *SessionResumptionError: the client does not retry with a full handshake", r.Ret.Pos())
+			nInv++
+			c.Ok(rule, construct, "every path to this error return invalidates the cached session", ret.Pos())
+			ev := c06ErrOperand(R, ret)
+			isSRE := ev != nil && vw.AllOrigins(vw.fv(ev), func(o c06FV) bool { return c07IsSREValue(o.V, sre) })
+			c.Check(isSRE, rule, construct+"/retryable", "the error is a *SessionResumptionError", "the error is not a *SessionResumptionError: the client does not retry with a full handshake", ret.Pos())
 			continue
 		}
 		excepted := ""
 		for _, x := range excs {
-			for _, e := range x.edges {
-				if instrDominatedByEdge(R, e, r.Ret) {
-					excepted = x.reason
-				}
+			if ok, _ := vw.MustPassTo(vw.Root, ret, x.fact); ok {
+				excepted = x.reason
 			}
 		}
 		if excepted != "" {
 			nExc++
-			c.Ok(rule, construct, "excepted: "+excepted, r.Ret.Pos())
+			c.Ok(rule, construct, "excepted: "+excepted, ret.Pos())
 			continue
 		}
-		c.Violate(rule, construct, "an error exit of the resumption exchange leaves the session cached (no cache.Invalidate(entry.ID()) on the way): every reconnect re-attempts the doomed resumption", r.Ret.Pos(), c.describePath(p)...)
+		c.Violate(rule, construct, "an error exit of the resumption exchange leaves the session cached (no cache.Invalidate(entry.ID()) on the way): every reconnect re-attempts the doomed resumption", ret.Pos(), c.describePath(p)...)
 	}
-	c.MinCount(rule, "error returns through the fail closure", nClosure, 4)
-	c.MinCount(rule, "error returns invalidating directly", nDirect, 1)
-	c.MinCount(rule, "excepted error returns", nExc, 2)
-}
-
-// c07IsParamCell: v (in fn, which is outer or a closure of outer) denotes outer's parameter #idx,
-// directly, through the parameter's spill cell, or through the closure's free variable bound to that cell.
-func c07IsParamCell(fn, outer *ssa.Function, v ssa.Value, idx int) bool {
-	if idx >= len(outer.Params) {
-		return false
-	}
-	par := outer.Params[idx]
-	isCellOf := func(addr ssa.Value) bool {
-		al, ok := addr.(*ssa.Alloc)
-		if !ok {
-			return false
-		}
-		n := 0
-		for _, r := range *al.Referrers() {
-			if st, ok := r.(*ssa.Store); ok && st.Addr == al {
-				n++
-				if st.Val != par {
-					return false
-				}
-			}
-		}
-		return n == 1
-	}
-	for _, o := range origins(fn, v) {
-		if o == ssa.Value(par) {
-			continue
-		}
-		ld, ok := o.(*ssa.UnOp)
-		if !ok || ld.Op != token.MUL {
-			return false
-		}
-		switch x := ld.X.(type) {
-		case *ssa.Alloc:
-			if !isCellOf(x) {
-				return false
-			}
-		case *ssa.FreeVar:
-			// find the binding in outer's MakeClosure of fn
-			bound := false
-			fi := -1
-			for i, fv := range fn.FreeVars {
-				if fv == x {
-					fi = i
-				}
-			}
-			allInstrs(outer, func(_ *ssa.BasicBlock, _ int, in ssa.Instruction) {
-				if mc, ok := in.(*ssa.MakeClosure); ok && mc.Fn == fn && fi >= 0 && fi < len(mc.Bindings) {
-					if isCellOf(mc.Bindings[fi]) {
-						bound = true
-					}
-				}
-			})
-			if !bound {
-				return false
-			}
-		default:
-			return false
-		}
-	}
-	return true
+	c.MinCount(rule, "error returns invalidating the cached session", nInv, 1)
+	c.Note("%s: %d error returns invalidate the cached session, %d are frozen exceptions", rule, nInv, nExc)
 }
 
 // c07IsSREValue: o (a leaf origin of an error value; origins() looks through MakeInterface) is a *SessionResumptionError.
@@ -538,30 +586,10 @@ func c07IsSREValue(o ssa.Value, sre types.Object) bool {
 	return ok && types.Identical(pt.Elem(), sre.Type())
 }
 
-// c07ReturnsSRE: every return of g yields a *SessionResumptionError as its error.
-func c07ReturnsSRE(g *ssa.Function, sre types.Object) bool {
-	n := 0
-	for _, b := range g.Blocks {
-		if len(b.Instrs) == 0 {
-			continue
-		}
-		ret, ok := b.Instrs[len(b.Instrs)-1].(*ssa.Return)
-		if !ok {
-			continue
-		}
-		n++
-		ev := c06ErrOperand(g, ret)
-		if ev == nil || !c06AllOrigins(g, ev, func(o ssa.Value) bool { return c07IsSREValue(o, sre) }) {
-			return false
-		}
-	}
-	return n > 0
-}
-
 // C07-R5: routes die with the session.
 func c07r5(c *Ctx) {
 	const rule = "C07-R5"
-	c.Doc(rule, "Invalidate and InvalidateExpired sweep commandMap in a complete loop (range over commandMap, delete(commandMap, key) for every entry whose session id is the removed one / is no longer in sessions, no early exit) on every path that removed a session; LookupByCommand follows a mapping only to an entry present in sessions and not expired; only the cache's own removers delete from sessions")
+	c.Doc(rule, "Invalidate and InvalidateExpired sweep commandMap in a complete loop (range over commandMap, delete(commandMap, key) for every entry whose session id is the removed one / is no longer in sessions, no early exit; the loop may live in a helper) on every path that removed a session; LookupByCommand follows a mapping only to an entry present in sessions and not expired; only the cache's own removers (and helpers only they call) delete from sessions")
 	a := c06Resolve(c, rule)
 	inve := c.needFn(rule, "security", "(*SessionCache).InvalidateExpired")
 	isExp := c.needFn(rule, "security", "(*SessionEntry).IsExpired")
@@ -582,21 +610,22 @@ func c07r5(c *Ctx) {
 		return nil
 	}
 	for _, f := range []*ssa.Function{a.invalidate, inve} {
-		var sweeps []*ssa.Call
-		var sessDels []ssa.Instruction
-		allInstrs(f, func(_ *ssa.BasicBlock, _ int, in ssa.Instruction) {
+		vw := c.c06NewView(f, a.stopFns()...)
+		var sweeps, sessDels []c06Site
+		vw.EachInstr(func(fr *c06Frame, in ssa.Instruction) {
 			if d := isDelete(in, fCmd); d != nil {
-				sweeps = append(sweeps, d)
+				sweeps = append(sweeps, c06Site{d, fr})
 			}
 			if d := isDelete(in, fSess); d != nil {
-				sessDels = append(sessDels, d)
+				sessDels = append(sessDels, c06Site{d, fr})
 			}
 		})
 		if len(sweeps) == 0 {
 			c.Violate(rule, fnName(f)+"#sweep", "no delete(commandMap, …): command mappings of a removed session survive it and route to whatever is later stored under the same id", f.Pos())
 			continue
 		}
-		for _, d := range sweeps {
+		for _, sw := range sweeps {
+			d, g := sw.Call.(*ssa.Call), sw.F.Fn
 			// the deleted key is the key of a range over commandMap
 			var next *ssa.Next
 			if ex, ok := d.Call.Args[1].(*ssa.Extract); ok && ex.Index == 1 {
@@ -614,7 +643,7 @@ func c07r5(c *Ctx) {
 			// guard: the mapping's value is the removed id (Invalidate) or misses in sessions (InvalidateExpired)
 			val := extractN(next, 2)
 			guarded := false
-			for _, b := range f.Blocks {
+			for _, b := range g.Blocks {
 				ifi := blockIf(b)
 				if ifi == nil || val == nil {
 					continue
@@ -628,14 +657,14 @@ func c07r5(c *Ctx) {
 					} else if at.Y == val {
 						other = at.X
 					}
-					if other == nil || len(f.Params) < 2 || other != ssa.Value(f.Params[1]) {
+					if other == nil || !vw.IsRootParam(c06FV{other, sw.F}, 1) {
 						continue
 					}
 					eq := Edge{b, 0}
 					if (at.Op == token.NEQ) != at.Neg {
 						eq = Edge{b, 1}
 					}
-					if instrDominatedByEdge(f, eq, d) {
+					if instrDominatedByEdge(g, eq, d) {
 						guarded = true
 					}
 				case token.ILLEGAL:
@@ -651,7 +680,7 @@ func c07r5(c *Ctx) {
 					if at.Neg {
 						miss = Edge{b, 0}
 					}
-					if instrDominatedByEdge(f, miss, d) {
+					if instrDominatedByEdge(g, miss, d) {
 						guarded = true
 					}
 				}
@@ -659,32 +688,32 @@ func c07r5(c *Ctx) {
 			c.Check(guarded, rule, fnName(f)+"#sweep:guard", "a mapping is deleted exactly when its session is the removed one / is gone", "the sweep's delete is not guarded by 'value == removed id' / 'value not in sessions'", d.Pos())
 			// complete loop: after a delete the only way on is back through next
 			var wit []*ssa.BasicBlock
-			for _, r := range c.c06LiveReturns(f) {
+			for _, r := range c.c06LiveReturns(g) {
 				if p := findPath(after(d), r.Target(), newCuts().AddInstrs(next)); p != nil {
 					wit = p
 				}
 			}
 			c.Check(wit == nil, rule, fnName(f)+"#sweep:complete", "the sweep continues after each delete", "the sweep can stop after deleting one mapping: the session's other command mappings survive", d.Pos(), c.describePath(wit)...)
 			// every path that removed a session runs the sweep
+			sweep := &c06Fact{Name: "sweep", Instr: func(fr *c06Frame, in ssa.Instruction) bool { return fr == sw.F && in == ssa.Instruction(rng) }}
 			for _, sd := range sessDels {
-				var w2 []*ssa.BasicBlock
-				for _, r := range c.c06LiveReturns(f) {
-					if p := findPath(after(sd), r.Target(), newCuts().AddInstrs(rng)); p != nil {
-						w2 = p
-					}
-				}
+				w2 := vw.EscapesFrom(sd.F, after(sd.Call), sweep)
 				c.Check(w2 == nil, rule, fnName(f)+"#sweep:after-removal", "every removal of a session is followed by the sweep", "a session can be removed and the function return without sweeping commandMap", sd.Pos(), c.describePath(w2)...)
 			}
 		}
 		c.MinCount(rule, "session removals in "+fnName(f), len(sessDels), 1)
 	}
 	// LookupByCommand: mapping -> present, unexpired entry
-	c.c06AccessorChecks(rule, a.lookupByCmd, isExp, fSess)
+	c.c06AccessorChecks(rule, a, a.lookupByCmd, isExp, fSess)
 	// who deletes from sessions / replaces the maps
 	allow := map[*ssa.Function]string{
 		a.invalidate: "sweeps commandMap (checked above)",
 		inve:         "sweeps commandMap (checked above)",
 		a.lookupNE:   "exception: lazy removal of an expired entry; its mappings can no longer be followed (LookupByCommand requires the entry in sessions, checked above) and InvalidateExpired sweeps them",
+	}
+	allowSet := map[*ssa.Function]bool{}
+	for f := range allow {
+		allowSet[f] = true
 	}
 	nd := 0
 	for _, fn := range c.ModFns {
@@ -694,22 +723,30 @@ func c07r5(c *Ctx) {
 				t := topFn(fn)
 				if why, ok := allow[t]; ok {
 					c.Ok(rule, "delete(sessions)@"+fnName(t), why, d.Pos())
+				} else if tops, ok := c.c06AllowedTopsFor(fn, d, allowSet, 0); ok {
+					var names []string
+					for _, x := range tops {
+						names = append(names, fnName(x))
+					}
+					sort.Strings(names)
+					c.Ok(rule, "delete(sessions)@"+fnName(t), "helper only called from "+strings.Join(names, ", ")+" (checked above)", d.Pos())
 				} else {
 					c.Violate(rule, "delete(sessions)@"+fnName(t), fnName(t)+" removes a session without being one of the removers that sweep commandMap", d.Pos())
 				}
 			}
 		})
 	}
-	c.MinCount(rule, "delete(sessions, …) sites", nd, 3)
+	c.MinCount(rule, "delete(sessions, …) sites", nd, 1)
 	// Clear replaces both maps
-	sStores, cStores := c06StoresToField(clr, fSess), c06StoresToField(clr, fCmd)
+	vc := c.c06NewView(clr, a.stopFns()...)
+	sStores, cStores := vc.StoresToField(fSess), vc.StoresToField(fCmd)
 	c.Check(len(sStores) > 0 && len(cStores) > 0, rule, fnName(clr)+"#both-maps", "Clear resets sessions and commandMap together", "Clear resets sessions without resetting commandMap", clr.Pos())
 }
 
 // C07-R6: the connect helper retries a failed resumption on a fresh connection.
 func c07r6(c *Ctx) {
 	const rule = "C07-R6"
-	c.Doc(rule, "ConnectAndAuthenticateWithConfig: when ClientHandshake fails with a session-resumption error the failed client is closed and the loop goes round again through NewClient/Connect (a fresh connection, full handshake since the session was dropped); success is returned only when the handshake error is nil")
+	c.Doc(rule, "ConnectAndAuthenticateWithConfig: when ClientHandshake (called directly or through a helper) fails with a session-resumption error the failed client is closed and the loop goes round again through NewClient/Connect (a fresh connection, full handshake since the session was dropped); success is returned only when the handshake error is nil")
 	f := c.needFn(rule, "client", "ConnectAndAuthenticateWithConfig")
 	isSRE := c.needFn(rule, "security", "IsSessionResumptionError")
 	chs := c.needFn(rule, "security", "(*Authenticator).ClientHandshake")
@@ -721,7 +758,9 @@ func c07r6(c *Ctx) {
 	if f == nil || isSRE == nil || chs == nil || newC == nil || conn == nil || cls == nil || newA == nil || fSec == nil {
 		return
 	}
-	hs := callsIn(f, chs.Object())
+	vw := c.c06NewView(f, newC, conn, cls)
+	root := vw.Root
+	hs := vw.Calls(chs.Object())
 	c.MinCount(rule, "ClientHandshake calls", len(hs), 1)
 	// success = a return that hands back a client (result #0 is not the nil constant)
 	var succ []RetPoint
@@ -731,138 +770,109 @@ func c07r6(c *Ctx) {
 		}
 	}
 	c.MinCount(rule, "returns handing back a client", len(succ), 1)
-	secNil, _ := c07SecurityNilEdges(f, fSec)
+	callIs := func(obj types.Object) func(fr *c06Frame, in ssa.Instruction) bool {
+		return func(fr *c06Frame, in ssa.Instruction) bool { _, ok := isCallTo(in, obj); return ok }
+	}
+	secNil := c07SecurityNilFact(fSec)
+	hsErr := func(o c06FV) bool {
+		ex, ok := o.V.(*ssa.Extract)
+		return ok && c06CallOf(o.V, chs.Object()) != nil && isErrorType(ex.Type())
+	}
+	sreTrue := &c06Fact{Name: "IsSessionResumptionError", Cond: func(fr *c06Frame, at Atom) (bool, bool) {
+		if at.Op != token.ILLEGAL || at.X == nil {
+			return false, false
+		}
+		cl, ok := at.X.(*ssa.Call)
+		if !ok || calleeFn(cl) != isSRE {
+			return false, false
+		}
+		return true, false
+	}}
 	n := 0
-	for _, t := range callsIn(f, isSRE.Object()) {
+	for _, t := range vw.Calls(isSRE.Object()) {
 		n++
 		// its argument is the handshake's error
-		argOK := c06AllOrigins(f, callArgs(t)[0], func(o ssa.Value) bool {
-			ex, ok := o.(*ssa.Extract)
-			return ok && c06CallOf(o, chs.Object()) != nil && isErrorType(ex.Type())
-		})
+		argOK := vw.AllOrigins(t.Arg(0), hsErr)
 		c.Check(argOK, rule, fnName(f)+"#IsSessionResumptionError:arg", "the tested error is ClientHandshake's", "IsSessionResumptionError is not applied to ClientHandshake's error", t.Pos())
-		te, _ := boolEdges(f, t.Value())
-		if len(te) == 0 {
-			c.Violate(rule, fnName(f)+"#retry", "the result of IsSessionResumptionError is not branched on", t.Pos())
-			continue
-		}
-		for _, e := range te {
-			start := Point{e.To(), 0}
-			if len(e.To().Instrs) == 0 {
-				continue
-			}
-			closes := callsIn(f, cls.Object())
-			var closeI, newI, connI []ssa.Instruction
-			for _, x := range closes {
-				closeI = append(closeI, x)
-			}
-			for _, x := range callsIn(f, newC.Object()) {
-				newI = append(newI, x)
-			}
-			for _, x := range callsIn(f, conn.Object()) {
-				connI = append(connI, x)
-			}
-			// (1) the loop goes round: NewClient is reachable again
-			again := false
-			for _, x := range newI {
-				if findPath(start, Target{Instr: x}, nil) != nil {
-					again = true
-				}
-			}
-			c.Check(again, rule, fnName(f)+"#retry:new-connection", "a resumption failure leads back to NewClient", "after a resumption failure the function does not go back to NewClient: no retry with a full handshake", t.Pos())
-			// (2) the failed client is closed before anything else happens
-			var wit []*ssa.BasicBlock
-			for _, x := range newI {
-				if p := findPath(start, Target{Instr: x}, newCuts().AddInstrs(closeI...)); p != nil {
-					wit = p
-				}
-			}
-			for _, r := range c.returnsOf(f) {
-				if p := findPath(start, r.Target(), newCuts().AddInstrs(closeI...)); p != nil {
-					wit = p
-				}
-			}
-			c.Check(wit == nil && len(closeI) > 0, rule, fnName(f)+"#retry:close-first", "the failed connection is closed before retrying or returning", "after a resumption failure the connection is not closed on some path", t.Pos(), c.describePath(wit)...)
-			// (3) no handshake on the old connection: ClientHandshake is reached again only through NewClient and Connect
-			var w3 []*ssa.BasicBlock
-			for _, h := range hs {
-				if p := findPath(start, Target{Instr: h}, newCuts().AddInstrs(newI...)); p != nil {
-					w3 = p
-				}
-				if p := findPath(start, Target{Instr: h}, newCuts().AddInstrs(connI...)); p != nil {
-					w3 = p
-				}
-			}
-			c.Check(w3 == nil, rule, fnName(f)+"#retry:fresh-stream", "the retry handshakes on a new client and connection", "the retry can handshake again without NewClient/Connect: it reuses the stream the failed resumption left unusable", t.Pos(), c.describePath(w3)...)
-			// (4) a success return is not reachable from the failure edge without a new handshake
-			var w4 []*ssa.BasicBlock
-			var hsI []ssa.Instruction
-			for _, h := range hs {
-				hsI = append(hsI, h)
-			}
-			for _, r := range succ {
-				if p := findPath(start, r.Target(), newCuts().AddInstrs(hsI...).AddEdges(secNil...)); p != nil {
-					w4 = p
-				}
-			}
-			c.Check(w4 == nil, rule, fnName(f)+"#retry:no-success-without-handshake", "a resumption failure never falls through to success", "a resumption failure can fall through to a success return", t.Pos(), c.describePath(w4)...)
-		}
 	}
 	c.MinCount(rule, "IsSessionResumptionError tests", n, 1)
+	type testEdge struct {
+		fr *c06Frame
+		e  Edge
+	}
+	var te []testEdge
+	for _, fr := range vw.Frames() {
+		var es []Edge
+		for e := range vw.Cuts(fr, sreTrue).Edges {
+			es = append(es, e)
+		}
+		sort.Slice(es, func(i, j int) bool { return es[i].From.Index < es[j].From.Index })
+		for _, e := range es {
+			te = append(te, testEdge{fr, e})
+		}
+	}
+	if n > 0 && len(te) == 0 {
+		c.Violate(rule, fnName(f)+"#retry", "the result of IsSessionResumptionError is not branched on", f.Pos())
+	}
+	closeF := &c06Fact{Name: "Close", Instr: callIs(cls.Object())}
+	newF := &c06Fact{Name: "NewClient", Instr: callIs(newC.Object())}
+	connF := &c06Fact{Name: "Connect", Instr: callIs(conn.Object())}
+	hsF := c06AnyOf("ClientHandshake", &c06Fact{Instr: callIs(chs.Object())}, secNil)
+	isSucc := map[*ssa.Return]bool{}
+	for _, r := range succ {
+		isSucc[r.Ret] = true
+	}
+	anyExit := func(RetPoint) bool { return true }
+	succExit := func(r RetPoint) bool { return isSucc[r.Ret] }
+	nClose := len(vw.Calls(cls.Object()))
+	// the searches below are inter-procedural: the test may sit in a helper that makes one attempt, the loop in its caller
+	for _, t := range te {
+		e := t.e
+		if len(e.To().Instrs) == 0 {
+			continue
+		}
+		start := Point{e.To(), 0}
+		pos := c06BlockPos(e.From)
+		// (1) the loop goes round: NewClient is reachable again
+		again := (&c06Reach{vw: vw, Target: callIs(newC.Object())}).From(t.fr, start, e.From) != nil
+		c.Check(again, rule, fnName(f)+"#retry:new-connection", "a resumption failure leads back to NewClient", "after a resumption failure the function does not go back to NewClient: no retry with a full handshake", pos)
+		// (2) the failed client is closed before anything else happens
+		wit := (&c06Reach{vw: vw, Fact: closeF, Target: callIs(newC.Object()), Exit: anyExit}).From(t.fr, start, e.From)
+		c.Check(wit == nil && nClose > 0, rule, fnName(f)+"#retry:close-first", "the failed connection is closed before retrying or returning", "after a resumption failure the connection is not closed on some path", pos, c.describePath(wit)...)
+		// (3) no handshake on the old connection: ClientHandshake is reached again only through NewClient and Connect
+		w3 := (&c06Reach{vw: vw, Fact: newF, Target: callIs(chs.Object())}).From(t.fr, start, e.From)
+		if w3 == nil {
+			w3 = (&c06Reach{vw: vw, Fact: connF, Target: callIs(chs.Object())}).From(t.fr, start, e.From)
+		}
+		c.Check(w3 == nil, rule, fnName(f)+"#retry:fresh-stream", "the retry handshakes on a new client and connection", "the retry can handshake again without NewClient/Connect: it reuses the stream the failed resumption left unusable", pos, c.describePath(w3)...)
+		// (4) a success return is not reachable from the failure edge without a new handshake
+		w4 := (&c06Reach{vw: vw, Fact: hsF, Exit: succExit}).From(t.fr, start, e.From)
+		c.Check(w4 == nil, rule, fnName(f)+"#retry:no-success-without-handshake", "a resumption failure never falls through to success", "a resumption failure can fall through to a success return", pos, c.describePath(w4)...)
+	}
 	// the authenticator handshaking is built on the client's own stream of this iteration
 	for _, h := range hs {
-		recv := callArgs(h)[0]
-		ok := c06AllOrigins(f, recv, func(o ssa.Value) bool { return c06CallOf(o, newA.Object()) != nil })
+		_, ok := vw.CallOf(h.Arg(0), newA.Object())
 		c.Check(ok, rule, fnName(f)+"#handshake:authenticator", "the handshake runs on a NewAuthenticator of this attempt", "the handshake's authenticator is not a NewAuthenticator of this attempt", h.Pos())
-		// success requires err == nil
-		succE, _, checked := callErrEdges(f, h.Value())
-		cuts := newCuts().AddEdges(succE...)
-		// attempts without security configured skip the handshake altogether
-		cuts.AddEdges(secNil...)
-		var w []*ssa.BasicBlock
-		for _, r := range succ {
-			if p := findPath(entryPoint(f), r.Target(), cuts); p != nil {
-				w = p
-			}
-		}
+		// success requires err == nil; attempts without security configured skip the handshake altogether
+		_, _, checked := callErrEdges(h.F.Fn, h.Call.Value())
+		checked = checked || c06ErrOnlyReturned(h.Call)
+		okF := c06AnyOf("nil handshake error", &c06Fact{CallOK: func(fr *c06Frame, cl ssa.CallInstruction) bool { return fr == h.F && cl == h.Call }}, secNil)
+		w := vw.PathToReturns(root, succ, okF, 0)
 		c.Check(checked && w == nil, rule, fnName(f)+"#success=>handshake-ok", "success is returned only past a nil handshake error (or with no security configured)", "a success return is reachable without a nil ClientHandshake error", h.Pos(), c.describePath(w)...)
 	}
 }
 
-// c07SecurityNilEdges: edges on which config.Security is nil (no handshake requested).
-func c07SecurityNilEdges(f *ssa.Function, fSec *types.Var) (nilE, nonNil []Edge) {
-	for _, b := range f.Blocks {
-		ifi := blockIf(b)
-		if ifi == nil {
-			continue
+// c07SecurityNilFact: config.Security is nil (no handshake requested).
+func c07SecurityNilFact(fSec *types.Var) *c06Fact {
+	return &c06Fact{Name: "config.Security == nil", Cond: func(fr *c06Frame, at Atom) (bool, bool) {
+		v, nilOnTrue, ok := c06NilAtom(at)
+		if !ok {
+			return false, false
 		}
-		at := condAtom(ifi.Cond)
-		if at.Op != token.EQL && at.Op != token.NEQ {
-			continue
+		_, fld, isF := fieldRead(stripConv(v))
+		if !isF || fld != fSec {
+			return false, false
 		}
-		var x ssa.Value
-		if isNilConst(at.Y) {
-			x = at.X
-		} else if isNilConst(at.X) {
-			x = at.Y
-		} else {
-			continue
-		}
-		_, fld, ok := fieldRead(stripConv(x))
-		if !ok || fld != fSec {
-			continue
-		}
-		eqNil := at.Op == token.EQL
-		if at.Neg {
-			eqNil = !eqNil
-		}
-		if eqNil {
-			nilE = append(nilE, Edge{b, 0})
-			nonNil = append(nonNil, Edge{b, 1})
-		} else {
-			nilE = append(nilE, Edge{b, 1})
-			nonNil = append(nonNil, Edge{b, 0})
-		}
-	}
-	return
+		return nilOnTrue, !nilOnTrue
+	}}
 }
